@@ -299,6 +299,9 @@ def _sym_exec(fn, comb, args, frame, c0, c1):
             return v if isinstance(t.ops[0], ast.Eq) else not v
         if isinstance(t, ast.Attribute) and t.attr == 'reference_model_JSON':
             return False
+        if isinstance(t, ast.Compare) and len(t.ops) == 1 and isinstance(t.ops[0], (ast.In, ast.NotIn)) and isinstance(t.comparators[0], ast.Name) and t.comparators[0].id == comb:
+            v = ev(t.left) in (c0, c1)
+            return v if isinstance(t.ops[0], ast.In) else not v
         if isinstance(t, ast.BoolOp):
             vals = [cond(v) for v in t.values]
             return all(vals) if isinstance(t.op, ast.And) else any(vals)
